@@ -85,6 +85,7 @@ macro_rules! dispatch {
             "C15" => $f::<props::c15::C15>($($args),*),
             "C16" => $f::<props::c16::C16>($($args),*),
             "C17" => $f::<props::c17::C17>($($args),*),
+            "C18" => $f::<props::c18::C18>($($args),*),
             "C19" => $f::<props::c19::C19>($($args),*),
             "C20" => $f::<props::c20::C20>($($args),*),
             other => {
